@@ -8,8 +8,13 @@ import Acra.Drv.Net
 import Acra.Drv.Golay7
 import Acra.Drv.Ch11
 import Acra.Drv.Extra
+import Acra.Drv.AFDX
+import Acra.Drv.Foreign
+import Acra.Drv.ToRtc
 namespace Acra.Drv
+/- `Foreign.foreignCodecs` comes first: the same codecs with the operand-aware `eqOp` attached (first match wins) -/
 def allCodecs : List Codec := List.flatten [
+  Foreign.foreignCodecs,
   ftiCodecs,
   fti2Codecs,
   Mpeg.mpegCodecs,
@@ -17,7 +22,8 @@ def allCodecs : List Codec := List.flatten [
   NetC.netCodecs,
   golay7Codecs,
   Ch11.ch11Codecs,
-  ExtraC.extraCodecs
+  ExtraC.extraCodecs,
+  AFDXC.afdxCodecs
 ]
 def allFuncs : List Func := List.flatten [
   ftiFuncs,
@@ -29,6 +35,8 @@ def allFuncs : List Func := List.flatten [
   NetC.netFuncs,
   golay7Funcs,
   Ch11.ch11Funcs,
-  ExtraC.extraFuncs
+  ExtraC.extraFuncs,
+  AFDXC.afdxFuncs,
+  toRtcFuncs
 ]
 end Acra.Drv
